@@ -1,0 +1,21 @@
+//go:build verif
+// +build verif
+
+// Contracts for the deductive verifier in /verif (comment-only file: it adds no code).
+package main
+
+//@ func writeType {C07 | safety: C07}
+//@   requires [nonnil] b != nil && t != nil
+//@   hypothesis [indent] at entry : 0 <= ident && ident < 1099511627776
+//@   modifies *b
+//@   loop 2 decreases ident + 1 - i
+//@   loop 3 decreases ident - i
+
+//@ func writeDocString {C07 | safety: C07}
+//@   requires [nonnil] b != nil
+//@   modifies *b
+
+//@ func generateTemplate {C07 | safety: C07}
+//@   modifies gpos, cstart, gone, gtwo, gname, gkw
+//@   hypothesis [struct-params] at call(New)#1 : res1 == nil ==> (forall i int :: 0 <= i && i < len(res0.Methods) ==> res0.Methods[i].In.Kind == idl.TypeStruct && res0.Methods[i].Out.Kind == idl.TypeStruct)
+//@   ensures [err C07] result2 != nil ==> result0 == "" && result1 == nil
